@@ -62,10 +62,13 @@ func H_C06_FixedAccept() {
 	if nd.Pick("otherLower", 2) == 1 {
 		setBid(e, types.Bid{AuctionId: 0, Id: 1, Bidder: bidder, Type: types.BidTypeFixedPrice, Price: posDec("o0.price"), Coin: sdk.NewCoin(denomSell, posInt("o0.amt")), IsMatched: true})
 		setBidSeq(e, 0, 1)
+		setAllowed(e, 0, bidder, posInt("o0.cap"))
 	}
 	if nd.Pick("otherHigher", 2) == 1 {
 		setBid(e, types.Bid{AuctionId: 2, Id: 1, Bidder: bidder, Type: types.BidTypeBatchMany, Price: posDec("o2.price"), Coin: sdk.NewCoin(denomSell, posInt("o2.amt")), IsMatched: false})
 		setBidSeq(e, 2, 1)
+		// ... where the bidder is, of course, allow-listed (RI R6) — which says nothing about this auction
+		setAllowed(e, 2, bidder, posInt("o2.cap"))
 	}
 	// allow-list: symbolic cap for the bidder, or absent
 	allowed := nd.Pick("allowed", 2) == 1
@@ -117,6 +120,7 @@ func H_C06_FixedAccept() {
 	nd.Assert("C06.accept-iff-reference", nd.Iff(err == nil, ref))
 	// C19: the reference ignores the bidder's bids in other auctions — they must not affect what the bidder may do here
 	nd.Assert("C19.bids-in-other-auctions-do-not-affect-acceptance", nd.Iff(err == nil, ref))
+	nd.Assert("C10.fixed-bid-accepted-only-if-allow-listed-in-this-auction", err != nil || allowed)
 
 	after := getAuction(e, target).(*types.FixedPriceAuction)
 	if err == nil {
